@@ -394,4 +394,602 @@ theorem aggStep_spec (oid : Nat) (a : Agg) (ha : a ≠ .first) (its : List V) (x
           List.foldl_append, List.foldl_cons, List.foldl_nil]
     | _ => simp [isDictV, hv] at hd
 
+/-! ### reference facts under the hypotheses -/
+
+theorem cutStop_all {f : Fn} {its : List V} (h : ∀ x ∈ its, isStop (f.val x) = false) : cutStop f its = its := by
+  unfold cutStop
+  induction its with
+  | nil => rfl
+  | cons y ys ih =>
+    simp only [List.takeWhile_cons, h y List.mem_cons_self, Bool.not_false, if_true]
+    rw [ih (fun x hx => h x (List.mem_cons_of_mem _ hx))]
+
+theorem treeOf_nil (s : GSpec) : treeOf s [] = [] := by cases s <;> simp [treeOf]
+
+theorem valsOf_snoc (f : Fn) (its : List V) (x : V) :
+    valsOf f (its ++ [x]) = valsOf f its ++ (if isSkip (f.val x) then [] else [f.val x]) := by
+  simp only [valsOf, List.filterMap_append, List.filterMap_cons, List.filterMap_nil]
+  by_cases h : isSkip (f.val x) = true <;> simp [h]
+
+theorem valsOf_cons_snoc (f : Fn) (y : V) (ys : List V) (x : V) :
+    valsOf f (y :: (ys ++ [x])) = valsOf f (y :: ys) ++ (if isSkip (f.val x) then [] else [f.val x]) := by
+  rw [← List.cons_append]; exact valsOf_snoc f (y :: ys) x
+
+theorem buckets_snoc (key : Fn) (its : List V) (x : V) :
+    buckets key (its ++ [x]) = bucketStep key (buckets key its) x := by
+  simp [buckets, List.foldl_append]
+
+theorem bucketStep_eq (key : Fn) (bs : List (V × List V)) (x : V) :
+    bucketStep key bs x = if isSkip (key.val x) then bs else addTo bs (key.val x) x := by
+  unfold bucketStep
+  cases key.val x <;> simp [isSkip]
+
+theorem addTo_keys {Q : V → Prop} (bs : List (V × List V)) (k x : V) (hk : Q k)
+    (hbs : ∀ b ∈ bs, Q b.1) : ∀ b ∈ addTo bs k x, Q b.1 := by
+  induction bs with
+  | nil => intro b hb; simp only [addTo, List.mem_singleton] at hb; subst hb; exact hk
+  | cons b0 bs ih =>
+    obtain ⟨k', its⟩ := b0
+    intro b hb
+    simp only [addTo] at hb
+    split at hb
+    · rcases List.mem_cons.mp hb with rfl | hb
+      · exact hbs (k', its) List.mem_cons_self
+      · exact hbs b (List.mem_cons_of_mem _ hb)
+    · rcases List.mem_cons.mp hb with rfl | hb
+      · exact hbs (k', its) List.mem_cons_self
+      · exact ih (fun b' hb' => hbs b' (List.mem_cons_of_mem _ hb')) b hb
+
+/-- every bucket holds (in order) a non-empty list of the items, and its key is a key some
+    item produced -/
+theorem foldl_buckets_inv (key : Fn) {Q : V → Prop} (all : List V) :
+    ∀ (its : List V) (bs : List (V × List V)), (∀ x ∈ its, x ∈ all) →
+      (∀ x ∈ its, isSkip (key.val x) = false → Q (key.val x)) →
+      (∀ b ∈ bs, Q b.1 ∧ b.2 ≠ [] ∧ ∀ i ∈ b.2, i ∈ all) →
+      ∀ b ∈ its.foldl (bucketStep key) bs, Q b.1 ∧ b.2 ≠ [] ∧ ∀ i ∈ b.2, i ∈ all := by
+  intro its
+  induction its with
+  | nil => intro bs _ _ hbs; exact hbs
+  | cons x xs ih =>
+    intro bs hall hq hbs
+    simp only [List.foldl_cons]
+    apply ih _ (fun y hy => hall y (List.mem_cons_of_mem _ hy)) (fun y hy => hq y (List.mem_cons_of_mem _ hy))
+    rw [bucketStep_eq]
+    by_cases hs : isSkip (key.val x) = true
+    · simpa only [hs, if_true] using hbs
+    · have hs' : isSkip (key.val x) = false := by simpa using hs
+      simp only [hs', Bool.false_eq_true, if_false]
+      intro b hb
+      refine ⟨?_, ?_⟩
+      · exact addTo_keys (Q := Q) _ _ _ (hq x List.mem_cons_self hs') (fun b' hb' => (hbs b' hb').1) b hb
+      · exact addTo_mem (P := fun i => i ∈ all) _ _ _ (hall x List.mem_cons_self)
+          (fun b' hb' => (hbs b' hb').2) b hb
+
+/-- every bucket holds a non-empty list of the items, and its key is a key some item produced -/
+theorem buckets_inv (key : Fn) {Q : V → Prop} (its : List V)
+    (hq : ∀ x ∈ its, isSkip (key.val x) = false → Q (key.val x)) :
+    ∀ b ∈ buckets key its, Q b.1 ∧ b.2 ≠ [] ∧ ∀ i ∈ b.2, i ∈ its :=
+  foldl_buckets_inv key its its [] (fun _ h => h) hq (by simp)
+
+theorem bhas_false {bs : List (V × List V)} {k : V} (h : ∀ b ∈ bs, keyEq b.1 k = false) : bhas bs k = false := by
+  induction bs with
+  | nil => rfl
+  | cons b bs ih =>
+    obtain ⟨k', its⟩ := b
+    simp only [bhas, Bool.or_eq_false_iff]
+    exact ⟨h (k', its) List.mem_cons_self, ih (fun b' hb' => h b' (List.mem_cons_of_mem _ hb'))⟩
+
+theorem bucketOf_of_not_bhas {bs : List (V × List V)} {k : V} (h : bhas bs k = false) : bucketOf bs k = [] := by
+  induction bs with
+  | nil => rfl
+  | cons b bs ih =>
+    obtain ⟨k', its⟩ := b
+    simp only [bhas, Bool.or_eq_false_iff] at h
+    simp [bucketOf, h.1, ih h.2]
+
+theorem hasVal_of_stopFree : ∀ (s : GSpec) (b : Bool) {its : List V} {x : V}, stopFree b s its = true → x ∈ its →
+    hasVal s x = true
+  | .agg .., _, _, _, _, _ => rfl
+  | .nested _, _, _, _, _, _ => rfl
+  | .limit .., _, _, _, h, _ => by simp [stopFree] at h
+  | .fn f, _, _, x, h, hx => by
+    simp only [stopFree, List.all_eq_true, Bool.and_eq_true, Bool.not_eq_true'] at h
+    simp [hasVal, (h x hx).1]
+  | .list _ f, _, _, x, h, hx => by
+    simp only [stopFree, List.all_eq_true, Bool.not_eq_true'] at h
+    simp [hasVal, h x hx]
+  | .dict _ _ key sub, _, _, x, h, hx => by
+    simp only [stopFree, Bool.and_eq_true, List.all_eq_true, Bool.not_eq_true'] at h
+    simp [hasVal, h.1 x hx, hasVal_of_stopFree sub true h.2 hx]
+
+/-- under the hypotheses the reference of a dict level is the plain bucket map -/
+theorem valOf_dict (id kid : Nat) (key : Fn) (sub : GSpec) (b : Bool) (its : List V)
+    (h : Hyp b (.dict id kid key sub) its) :
+    valOf (.dict id kid key sub) its = .dict ((buckets key its).map (fun b => (b.1, valOf sub b.2))) := by
+  have hsf := h.sf
+  simp only [stopFree, Bool.and_eq_true, List.all_eq_true, Bool.not_eq_true'] at hsf
+  have hcut : cutStop key its = its := cutStop_all hsf.1
+  have hinv := buckets_inv key (Q := fun _ => True) its (fun _ _ _ => trivial)
+  have hfil : (buckets key its).filter (bucketHasVal sub) = buckets key its := by
+    rw [List.filter_eq_self]
+    intro bk hbk
+    obtain ⟨_, hne, hmem⟩ := hinv bk hbk
+    unfold bucketHasVal
+    cases hb2 : bk.2 with
+    | nil => exact absurd hb2 hne
+    | cons y ys =>
+      exact hasVal_of_stopFree sub true hsf.2 (hmem y (by simp [hb2]))
+  simp only [valOf, bucketize, hcut]
+  rw [show List.foldl (bucketStep key) [] its = buckets key its from rfl, hfil]
+
+/-! ### results are never the sentinels -/
+
+theorem refAgg_not_sentinel (a : Agg) (ha : a ≠ .first) (y : V) (ys : List V) (hok : aggOk a (y :: ys) = true) :
+    isStop (refAgg a (y :: ys)) = false ∧ isSkip (refAgg a (y :: ys)) = false := by
+  cases a with
+  | first => exact absurd rfl ha
+  | max =>
+    have hm := pyMax_mem y ys
+    simp only [aggOk, Bool.or_eq_true, List.all_eq_true] at hok
+    rcases hok with h | h <;> (have := h _ hm; revert this; simp only [refAgg]; cases pyMax (y :: ys) <;>
+      simp [isIntLike, isStr, asInt, isStop, isSkip])
+  | min =>
+    have hm := pyMin_mem y ys
+    simp only [aggOk, Bool.or_eq_true, List.all_eq_true] at hok
+    rcases hok with h | h <;> (have := h _ hm; revert this; simp only [refAgg]; cases pyMin (y :: ys) <;>
+      simp [isIntLike, isStr, asInt, isStop, isSkip])
+  | avg => simp [refAgg, avgDiv, isStop, isSkip]
+  | sum f => simp [refAgg, isStop, isSkip]
+  | count => simp [refAgg, isStop, isSkip]
+  | flatten f => simp [refAgg, isStop, isSkip]
+  | merge f => simp [refAgg, isStop, isSkip]
+
+theorem emptyOf_not_sentinel (g : GSpec) : isStop (emptyOf g) = false ∧ isSkip (emptyOf g) = false := by
+  cases g <;> simp [emptyOf, isStop, isSkip]
+
+theorem getLast?_ne_nil {its : List V} (h : its ≠ []) : ∃ x, its.getLast? = some x ∧ x ∈ its := by
+  cases hl : its.getLast? with
+  | none => simp [List.getLast?_eq_none_iff] at hl; exact absurd hl h
+  | some x => exact ⟨x, rfl, List.mem_of_getLast? hl⟩
+
+/-- below a key level (`b = true`) a result is neither STOP nor SKIP; at the top it is not STOP -/
+theorem valOf_not_sentinel : ∀ (s : GSpec) (b : Bool) (its : List V), its ≠ [] → Hyp b s its →
+    isStop (valOf s its) = false ∧ (b = true → isSkip (valOf s its) = false)
+  | .agg oid a, b, its, hne, h => by
+    have hsf := h.sf
+    have ha : a ≠ .first := by intro ha; subst ha; simp [stopFree] at hsf
+    cases its with
+    | nil => exact absurd rfl hne
+    | cons y ys =>
+      have := refAgg_not_sentinel a ha y ys h.wf
+      exact ⟨this.1, fun _ => this.2⟩
+  | .fn f, b, its, hne, h => by
+    have hsf := h.sf
+    simp only [stopFree, List.all_eq_true, Bool.and_eq_true, Bool.not_eq_true', Bool.and_eq_false_imp] at hsf
+    have hcut : cutStop f its = its := cutStop_all (fun x hx => (hsf x hx).1)
+    obtain ⟨x, hx, hxm⟩ := getLast?_ne_nil hne
+    simp only [valOf, hcut, hx]
+    refine ⟨(hsf x hxm).1, ?_⟩
+    intro hb
+    have := (hsf x hxm).2
+    simpa [hb] using this
+  | .list _ f, b, its, _, _ => by simp [valOf, isStop, isSkip]
+  | .limit .., b, its, _, h => by have := h.sf; simp [stopFree] at this
+  | .dict id kid key sub, b, its, _, h => by rw [valOf_dict id kid key sub b its h]; simp [isStop, isSkip]
+  | .nested g, b, its, hne, h => by
+    obtain ⟨x, hx, hxm⟩ := getLast?_ne_nil hne
+    have hwf := h.wf
+    have hsf := h.sf
+    have hka := h.ka
+    simp only [wfRun, List.all_eq_true, Bool.and_eq_true] at hwf
+    simp only [stopFree, List.all_eq_true, Bool.and_eq_true] at hsf
+    simp only [keysApart, List.all_eq_true] at hka
+    have hin : Hyp false g ((iterOf x).getD []) := ⟨(hwf x hxm).2, hsf.2 x hxm, hka x hxm⟩
+    simp only [valOf, hx, emptyOr]
+    by_cases hemp : ((iterOf x).getD []).isEmpty = true
+    · simp only [hemp, if_true]
+      exact ⟨(emptyOf_not_sentinel g).1, fun _ => (emptyOf_not_sentinel g).2⟩
+    · have hne' : (iterOf x).getD [] ≠ [] := by simpa using hemp
+      simp only [hemp, Bool.false_eq_true, if_false]
+      have ih := valOf_not_sentinel g false _ hne' hin
+      refine ⟨ih.1, ?_⟩
+      intro hb
+      subst hb
+      -- below a key level the nested spec is a dict / list / aggregator: never SKIP
+      have hg := hsf.1
+      cases g with
+      | fn f => simp at hg
+      | nested g2 => simp at hg
+      | limit oid n sub => have := hin.sf; simp [stopFree] at this
+      | list id f => simp [valOf, isSkip]
+      | dict id kid key sub => rw [valOf_dict id kid key sub false _ hin]; simp [isSkip]
+      | agg oid a =>
+        have ha : a ≠ .first := by intro ha; subst ha; have := hin.sf; simp [stopFree] at this
+        cases hl : (iterOf x).getD [] with
+        | nil => exact absurd hl hne'
+        | cons y ys =>
+          have hok : aggOk a (y :: ys) = true := by have := hin.wf; rw [hl] at this; exact this
+          exact (refAgg_not_sentinel a ha y ys hok).2
+
+/-! ### the item loop -/
+
+/-- if every step extends the reference by one item, the loop of Group.glomit computes the
+    reference of all items -/
+theorem loop_of_step (s : GSpec)
+    (hstep : ∀ (its : List V) (x : V), Hyp false s (its ++ [x]) →
+      gstep s x (treeOf s its) = .ok (valOf s (its ++ [x]), treeOf s (its ++ [x]))) :
+    ∀ (xs done : List V), Hyp false s (done ++ xs) →
+      loopWith (gstep s) xs (valOfTop s done) (treeOf s done) = .ok (valOfTop s (done ++ xs)) := by
+  intro xs
+  induction xs with
+  | nil => intro done _; simp [loopWith]
+  | cons x xs ih =>
+    intro done h
+    have hx : Hyp false s (done ++ [x]) := h.subset (fun i hi => by
+      rcases List.mem_append.mp hi with h1 | h1
+      · exact List.mem_append_left _ h1
+      · exact List.mem_append_right _ (by simp at h1; simp [h1]))
+    have hns := (valOf_not_sentinel s false (done ++ [x]) (by simp) hx).1
+    simp only [loopWith, hstep done x hx, hns, Bool.false_eq_true, if_false]
+    have : valOf s (done ++ [x]) = valOfTop s (done ++ [x]) := by simp [valOfTop, emptyOr]
+    rw [this]
+    have := ih (done ++ [x]) (by simpa using h)
+    simpa using this
+
+theorem groupEval_of_step (s : GSpec)
+    (hstep : ∀ (its : List V) (x : V), Hyp false s (its ++ [x]) →
+      gstep s x (treeOf s its) = .ok (valOf s (its ++ [x]), treeOf s (its ++ [x])))
+    (items : List V) (h : Hyp false s items) : groupEval s items = .ok (valOfTop s items) := by
+  have := loop_of_step s hstep items [] (by simpa using h)
+  simpa [groupEval, groupLoop, valOfTop, emptyOr, treeOf_nil] using this
+
+/-! ### one step of a key level -/
+
+/-- the tree a key level holds, given its buckets -/
+def levelTree (id : Nat) (sub : GSpec) (bs : List (V × List V)) : List (V × V) :=
+  (idKey id, .dict (bs.map (fun b => (b.1, valOf sub b.2)))) :: bs.map (fun b => (b.1, V.dict (treeOf sub b.2)))
+
+theorem treeOf_dict (id kid : Nat) (key : Fn) (sub : GSpec) (its : List V) :
+    treeOf (.dict id kid key sub) its = if its.isEmpty then [] else levelTree id sub (buckets key its) := rfl
+
+theorem dget_cons_ne {k' k v : V} {es : List (V × V)} (h : keyEq k' k = false) :
+    dget ((k', v) :: es) k = dget es k := by simp [dget, h]
+
+theorem dset_cons_ne {k' k v w : V} {es : List (V × V)} (h : keyEq k' k = false) :
+    dset ((k', v) :: es) k w = (k', v) :: dset es k w := by simp [dset, h]
+
+theorem dict_step (id kid : Nat) (key : Fn) (sub : GSpec) (b : Bool) (its : List V) (x : V)
+    (h : Hyp b (.dict id kid key sub) (its ++ [x]))
+    (hsub : ∀ its', (∀ i ∈ its', i ∈ its) →
+      gstep sub x (treeOf sub its') = .ok (valOf sub (its' ++ [x]), treeOf sub (its' ++ [x]))) :
+    gstep (.dict id kid key sub) x (treeOf (.dict id kid key sub) its) =
+      .ok (valOf (.dict id kid key sub) (its ++ [x]), treeOf (.dict id kid key sub) (its ++ [x])) := by
+  -- unpack the hypotheses
+  have hwf := h.wf
+  have hsf := h.sf
+  have hka := h.ka
+  simp only [wfRun, Bool.and_eq_true, List.all_eq_true] at hwf
+  simp only [stopFree, Bool.and_eq_true, List.all_eq_true, Bool.not_eq_true'] at hsf
+  simp only [keysApart, Bool.and_eq_true, List.all_eq_true, Bool.not_eq_true'] at hka
+  have hxm : x ∈ its ++ [x] := by simp
+  have hsubH : Hyp true sub (its ++ [x]) := ⟨hwf.2, hsf.2, hka.2⟩
+  have hkap := apply_of_ok (hwf.1 x hxm).1
+  have hhash := (hwf.1 x hxm).2
+  have hnstop : isStop (key.val x) = false := hsf.1 x hxm
+  have hslotx : keyEq (idKey id) (key.val x) = false := (hka.1 x hxm).1
+  have hobjx : keyEq (.obj kid) (key.val x) = false := (hka.1 x hxm).2
+  -- the buckets so far
+  have hinv := buckets_inv key (Q := fun k => keyEq k (idKey id) = false ∧ keyEq k (.obj kid) = false) its
+    (fun y hy _ => by
+      have := hka.1 y (List.mem_append_left _ hy)
+      exact ⟨by rw [keyEq_symm]; exact this.1, by rw [keyEq_symm]; exact this.2⟩)
+  -- the tree after `acc = tree[id(spec)]` was ensured
+  have htree1 : (if dhas (treeOf (.dict id kid key sub) its) (idKey id) then treeOf (.dict id kid key sub) its
+      else dset (treeOf (.dict id kid key sub) its) (idKey id) (.dict [])) = levelTree id sub (buckets key its) := by
+    rw [treeOf_dict]
+    cases its with
+    | nil => simp [dhas, dget, dset, levelTree, buckets]
+    | cons y ys => simp [dhas, dget, levelTree, keyEq_idKey]
+  have hacc : subTree (levelTree id sub (buckets key its)) (idKey id) =
+      .ok ((buckets key its).map (fun b => (b.1, valOf sub b.2))) := by
+    simp [subTree, levelTree, dget, keyEq_idKey]
+  have hmark : dget (levelTree id sub (buckets key its)) (.obj kid) = none := by
+    rw [levelTree, dget_cons_ne (keyEq_id_obj id kid), dget_map (fun its => V.dict (treeOf sub its)),
+      bhas_false (fun b hb => (hinv b hb).1.2)]
+    rfl
+  -- the right-hand side
+  have hrhsV := valOf_dict id kid key sub b (its ++ [x]) h
+  have hrhsT : treeOf (.dict id kid key sub) (its ++ [x]) = levelTree id sub (buckets key (its ++ [x])) := by
+    rw [treeOf_dict]; simp
+  rw [hrhsV, hrhsT, buckets_snoc, bucketStep_eq]
+  -- run the code
+  simp only [gstep, htree1, hacc, hmark, hkap]
+  by_cases hskip : isSkip (key.val x) = true
+  · simp [hskip, levelTree]
+  · have hskip' : isSkip (key.val x) = false := by simpa using hskip
+    have hkk : keyEq (key.val x) (key.val x) = true := keyEq_refl hhash
+    simp only [hskip', hnstop, hhash, Bool.false_eq_true, if_false, Bool.not_true, hslotx, Bool.false_and]
+    -- `key not in acc`
+    have hfresh : dhas ((buckets key its).map (fun b => (b.1, valOf sub b.2))) (key.val x) =
+        bhas (buckets key its) (key.val x) := by
+      rw [dhas_eq, dget_map]; cases bhas (buckets key its) (key.val x) <;> rfl
+    rw [hfresh]
+    -- `tree[key]` after `if key not in acc: tree[key] = {}`
+    have hst : subTree (if (!bhas (buckets key its) (key.val x)) = true
+          then dset (levelTree id sub (buckets key its)) (key.val x) (.dict [])
+          else levelTree id sub (buckets key its)) (key.val x) =
+        .ok (treeOf sub (bucketOf (buckets key its) (key.val x))) := by
+      cases hb : bhas (buckets key its) (key.val x) with
+      | false =>
+        simp only [Bool.not_false, if_true, levelTree, dset_cons_ne hslotx, subTree, dget_cons_ne hslotx,
+          dget_dset_self _ hkk, bucketOf_of_not_bhas hb, treeOf_nil]
+      | true =>
+        simp only [Bool.not_true, Bool.false_eq_true, if_false, levelTree, subTree, dget_cons_ne hslotx,
+          dget_map (fun its => V.dict (treeOf sub its)), hb, if_true]
+    rw [hst]
+    have hbm : ∀ i ∈ bucketOf (buckets key its) (key.val x), i ∈ its :=
+      bucketOf_mem (P := fun i => i ∈ its) _ _ (fun b hb => ⟨(hinv b hb).2.1, (hinv b hb).2.2⟩)
+    have hrec := hsub _ hbm
+    have hHb : Hyp true sub (bucketOf (buckets key its) (key.val x) ++ [x]) :=
+      hsubH.subset (fun i hi => by
+        rcases List.mem_append.mp hi with h1 | h1
+        · exact List.mem_append_left _ (hbm i h1)
+        · exact List.mem_append_right _ h1)
+    have hns := valOf_not_sentinel sub true _ (by simp) hHb
+    simp only [hrec, hns.1, hns.2 rfl, Bool.false_eq_true, if_false]
+    -- the two stores: the sub-tree back into its slot, the result into `acc`
+    have htail : dset (if (!bhas (buckets key its) (key.val x)) = true
+          then dset (levelTree id sub (buckets key its)) (key.val x) (.dict [])
+          else levelTree id sub (buckets key its)) (key.val x)
+          (.dict (treeOf sub (bucketOf (buckets key its) (key.val x) ++ [x]))) =
+        (idKey id, .dict ((buckets key its).map (fun b => (b.1, valOf sub b.2)))) ::
+          (addTo (buckets key its) (key.val x) x).map (fun b => (b.1, V.dict (treeOf sub b.2))) := by
+      have hm := dset_map (fun its => V.dict (treeOf sub its)) (buckets key its) (key.val x) x
+      cases hb : bhas (buckets key its) (key.val x) with
+      | false =>
+        simp only [Bool.not_false, if_true, levelTree, dset_cons_ne hslotx, dset_dset _ hkk, hm]
+      | true =>
+        simp only [Bool.not_true, Bool.false_eq_true, if_false, levelTree, dset_cons_ne hslotx, hm]
+    rw [htail]
+    have hacc' := dset_map (valOf sub) (buckets key its) (key.val x) x
+    simp only [hacc', dset, keyEq_idKey, if_true, levelTree]
+
+/-! ### the step lemma for every spec -/
+
+theorem snoc_subset {its' its : List V} {x : V} (h : ∀ i ∈ its', i ∈ its) : ∀ i ∈ its' ++ [x], i ∈ its ++ [x] := by
+  intro i hi
+  rcases List.mem_append.mp hi with h1 | h1
+  · exact List.mem_append_left _ (h i h1)
+  · exact List.mem_append_right _ h1
+
+/-- **one item more**: evaluating the spec on item `x` with the tree the items `its` left
+    returns the reference over `its ++ [x]` and leaves the tree of `its ++ [x]` -/
+theorem gstep_spec : ∀ (s : GSpec) (b : Bool) (its : List V) (x : V), Hyp b s (its ++ [x]) →
+    gstep s x (treeOf s its) = .ok (valOf s (its ++ [x]), treeOf s (its ++ [x]))
+  | .agg oid a, b, its, x, h => by
+    have hsf := h.sf
+    have ha : a ≠ .first := by intro ha; subst ha; simp [stopFree] at hsf
+    exact aggStep_spec oid a ha its x h.wf
+  | .fn f, b, its, x, h => by
+    have hwf := h.wf
+    have hsf := h.sf
+    simp only [wfRun, List.all_eq_true] at hwf
+    simp only [stopFree, List.all_eq_true, Bool.and_eq_true, Bool.not_eq_true'] at hsf
+    have hcut : cutStop f (its ++ [x]) = its ++ [x] := cutStop_all (fun y hy => (hsf y hy).1)
+    simp [gstep, treeOf, apply_of_ok (hwf x (by simp)), valOf, hcut]
+  | .limit .., b, its, x, h => by have := h.sf; simp [stopFree] at this
+  | .list id f, b, its, x, h => by
+    have hwf := h.wf
+    have hsf := h.sf
+    simp only [wfRun, List.all_eq_true] at hwf
+    simp only [stopFree, List.all_eq_true, Bool.not_eq_true'] at hsf
+    have hcut : cutStop f (its ++ [x]) = its ++ [x] := cutStop_all hsf
+    have hns := hsf x (by simp)
+    have hval : valOf (.list id f) (its ++ [x]) = .list (valsOf f (its ++ [x])) := by
+      simp [valOf, hcut, valsOf]
+    rw [hval, valsOf_snoc]
+    cases its with
+    | nil =>
+      by_cases hs : isSkip (f.val x) = true
+      · simp [gstep, treeOf, apply_of_ok (hwf x (by simp)), hns, hs, dget, dhas, dset, valsOf, keyEq_idKey]
+      · have hs' : isSkip (f.val x) = false := by simpa using hs
+        simp [gstep, treeOf, apply_of_ok (hwf x (by simp)), hns, hs', dget, dhas, dset, valsOf, keyEq_idKey]
+    | cons y ys =>
+      by_cases hs : isSkip (f.val x) = true
+      · simp [gstep, treeOf, apply_of_ok (hwf x (by simp)), hns, hs, dget, dhas, dset, keyEq_idKey, valsOf_cons_snoc]
+      · have hs' : isSkip (f.val x) = false := by simpa using hs
+        simp [gstep, treeOf, apply_of_ok (hwf x (by simp)), hns, hs', dget, dhas, dset, keyEq_idKey, valsOf_cons_snoc]
+  | .nested g, b, its, x, h => by
+    have hwf := h.wf
+    have hsf := h.sf
+    have hka := h.ka
+    simp only [wfRun, List.all_eq_true, Bool.and_eq_true] at hwf
+    simp only [stopFree, List.all_eq_true, Bool.and_eq_true] at hsf
+    simp only [keysApart, List.all_eq_true] at hka
+    have hxm : x ∈ its ++ [x] := by simp
+    have hin : Hyp false g ((iterOf x).getD []) := ⟨(hwf x hxm).2, hsf.2 x hxm, hka x hxm⟩
+    have hev := groupEval_of_step g (fun its' x' h' => gstep_spec g false its' x' h') _ hin
+    have hseq := (hwf x hxm).1
+    have hval : valOf (.nested g) (its ++ [x]) = valOfTop g ((iterOf x).getD []) := by
+      simp [valOf, valOfTop]
+    rw [hval]
+    simp only [groupEval, groupLoop] at hev
+    cases x with
+    | list xs => simp only [gstep, iterOf, Option.getD_some, treeOf] at hev ⊢; simp [hev]
+    | tuple xs => simp only [gstep, iterOf, Option.getD_some, treeOf] at hev ⊢; simp [hev]
+    | _ => simp [isSeqV] at hseq
+  | .dict id kid key sub, b, its, x, h => by
+    have hwf := h.wf
+    have hsf := h.sf
+    have hka := h.ka
+    simp only [wfRun, Bool.and_eq_true] at hwf
+    simp only [stopFree, Bool.and_eq_true] at hsf
+    simp only [keysApart, Bool.and_eq_true] at hka
+    have hsubH : Hyp true sub (its ++ [x]) := ⟨hwf.2, hsf.2, hka.2⟩
+    exact dict_step id kid key sub b its x h
+      (fun its' hs => gstep_spec sub true its' x (hsubH.subset (snoc_subset hs)))
+
+/-- **Group = the hand-written loop** (under the hypotheses) -/
+theorem groupEval_spec (s : GSpec) (items : List V) (h : Hyp false s items) :
+    groupEval s items = .ok (valOfTop s items) :=
+  groupEval_of_step s (fun its x hx => gstep_spec s false its x hx) items h
+
+/-! ### top-level Limit and First -/
+
+def limTree (oid : Nat) (sub : GSpec) (done : List V) : List (V × V) :=
+  if done.isEmpty then [] else [(.obj oid, .list [.int done.length, .dict (treeOf sub done)])]
+
+def limRet (sub : GSpec) (done : List V) : V := if done.isEmpty then .none else valOf sub done
+
+theorem limit_unpack (oid : Nat) (sub : GSpec) (done : List V) :
+    limitState (limTree oid sub done) (.obj oid) = ((done.length : Int), treeOf sub done) := by
+  cases done with
+  | nil => simp [limitState, limTree, dget, treeOf_nil]
+  | cons y ys => simp [limitState, limTree, dget, keyEq_obj]
+
+theorem limTree_snoc (oid : Nat) (sub : GSpec) (done : List V) (x : V) :
+    dset (limTree oid sub done) (.obj oid) (.list [.int ((done.length : Int) + 1), .dict (treeOf sub (done ++ [x]))]) =
+      limTree oid sub (done ++ [x]) := by
+  cases done with
+  | nil => simp [limTree, dset]
+  | cons y ys => simp [limTree, dset, keyEq_obj]
+
+theorem limit_step_lt (oid n : Nat) (sub : GSpec) (done : List V) (x : V) (hlt : done.length < n)
+    (hx : Hyp false sub (done ++ [x])) :
+    gstep (.limit oid n sub) x (limTree oid sub done) =
+      .ok (valOf sub (done ++ [x]), limTree oid sub (done ++ [x])) := by
+  have hcnt : ¬ ((done.length : Int) + 1 > (n : Int)) := by omega
+  simp only [gstep, limit_unpack, hcnt, if_false, gstep_spec sub false done x hx, limTree_snoc]
+
+theorem limit_step_ge (oid n : Nat) (sub : GSpec) (done : List V) (x : V) (hge : n ≤ done.length) :
+    ∃ t, gstep (.limit oid n sub) x (limTree oid sub done) = .ok (.stop, t) := by
+  have hcnt : ((done.length : Int) + 1 > (n : Int)) := by omega
+  exact ⟨_, by simp only [gstep, limit_unpack, hcnt, if_true]⟩
+
+theorem limit_loop (oid n : Nat) (sub : GSpec) :
+    ∀ (xs done : List V), done.length ≤ n → Hyp false sub (done ++ xs) →
+      loopWith (gstep (.limit oid n sub)) xs (limRet sub done) (limTree oid sub done) =
+        .ok (valOfTop (.limit oid n sub) (done ++ xs)) := by
+  intro xs
+  induction xs with
+  | nil =>
+    intro done hlen _
+    cases done with
+    | nil => simp [loopWith, limRet, valOfTop, emptyOr, emptyOf]
+    | cons y ys =>
+      have hn : (n == 0) = false := by simp at hlen ⊢; omega
+      simp [loopWith, limRet, valOfTop, emptyOr, valOf, hn, List.take_of_length_le hlen]
+  | cons x xs ih =>
+    intro done hlen h
+    by_cases hlt : done.length < n
+    · have hx : Hyp false sub (done ++ [x]) := h.subset (fun i hi => by
+        rcases List.mem_append.mp hi with h1 | h1
+        · exact List.mem_append_left _ h1
+        · exact List.mem_append_right _ (by simp at h1; simp [h1]))
+      have hns := (valOf_not_sentinel sub false (done ++ [x]) (by simp) hx).1
+      have hstep := limit_step_lt oid n sub done x hlt hx
+      have := ih (done ++ [x]) (by simp; omega) (by simpa using h)
+      have hl : limRet sub (done ++ [x]) = valOf sub (done ++ [x]) := by simp [limRet]
+      rw [hl] at this
+      unfold loopWith
+      rw [hstep]
+      simp only [hns, Bool.false_eq_true, if_false]
+      simpa using this
+    · have heq : done.length = n := by omega
+      obtain ⟨t, hstep⟩ := limit_step_ge oid n sub done x (by omega)
+      unfold loopWith
+      rw [hstep]
+      simp only [isStop, if_true]
+      cases done with
+      | nil =>
+        have hn0 : n = 0 := by simpa using heq.symm
+        simp [limRet, valOfTop, emptyOr, valOf, hn0]
+      | cons y ys =>
+        have hn : (n == 0) = false := by simp at heq ⊢; omega
+        have htake : List.take n (y :: (ys ++ x :: xs)) = y :: ys := by
+          rw [← List.cons_append, ← heq]; exact List.take_left' rfl
+        simp [limRet, valOfTop, emptyOr, valOf, hn, htake]
+
+/-- **top-level Limit(n)**: `Group(Limit(n, sub))` is `sub` over the first `n` items -/
+theorem limit_spec (oid n : Nat) (sub : GSpec) (items : List V) (h : Hyp false sub items) :
+    groupEval (.limit oid n sub) items = .ok (valOfTop (.limit oid n sub) items) := by
+  have := limit_loop oid n sub items [] (by simp) (by simpa using h)
+  simpa [groupEval, groupLoop, limRet, limTree, emptyOf] using this
+
+theorem first_spec (oid : Nat) (items : List V) (hp : ∀ x ∈ items, isStop x = false) :
+    groupEval (.agg oid .first) items = .ok (valOfTop (.agg oid .first) items) := by
+  cases items with
+  | nil => simp [groupEval, groupLoop, loopWith, valOfTop, emptyOr, emptyOf]
+  | cons x xs =>
+    have hx := hp x List.mem_cons_self
+    have h1 : gstep (.agg oid .first) x [] = .ok (x, [(.obj oid, .stop)]) := by
+      simp [gstep, aggStep, dhas, dget, dset]
+    cases xs with
+    | nil =>
+      simp only [groupEval, groupLoop]
+      unfold loopWith
+      rw [h1]
+      simp [hx, loopWith, valOfTop, emptyOr, valOf, refAgg]
+    | cons y ys =>
+      have h2 : gstep (.agg oid .first) y [(.obj oid, .stop)] = .ok (.stop, [(.obj oid, .stop)]) := by
+        simp [gstep, aggStep, dhas, dget, keyEq_obj]
+      simp only [groupEval, groupLoop]
+      unfold loopWith
+      rw [h1]
+      simp only [hx, Bool.false_eq_true, if_false]
+      unfold loopWith
+      rw [h2]
+      simp [isStop, valOfTop, emptyOr, valOf, refAgg]
+
+/-! ### the checker on the model's own observations -/
+
+theorem obs_beq_refl (v : V) : ((Obs.ok v : Obs) == Obs.ok v) = true := by
+  show Obs.beq _ _ = true
+  simp [Obs.beq, veq_refl]
+
+theorem covered_spec (g : GSpec) (items : List V) (hwf : wfRun g items = true) (hc : covered g items = true) :
+    groupEval g items = .ok (valOfTop g items) := by
+  cases g with
+  | limit oid n sub =>
+    simp only [covered, Bool.and_eq_true] at hc
+    exact limit_spec oid n sub items ⟨hwf, hc.2, hc.1⟩
+  | agg oid a =>
+    cases a with
+    | first =>
+      simp only [covered, List.all_eq_true, Bool.not_eq_true'] at hc
+      exact first_spec oid items hc
+    | _ =>
+      simp only [covered, Bool.and_eq_true] at hc
+      exact groupEval_spec _ items ⟨hwf, hc.2, hc.1⟩
+  | _ =>
+    simp only [covered, Bool.and_eq_true] at hc
+    exact groupEval_spec _ items ⟨hwf, hc.2, hc.1⟩
+
+theorem check_model (g : GSpec) :
+    ∀ (runs : List (List V)), (∀ r ∈ runs, wfRun g r = true → covered g r = true) →
+      checkC16 g runs (runs.map (fun r => observe (groupEval g r))) = true := by
+  intro runs h
+  simp only [checkC16, List.length_map, beq_self_eq_true, Bool.true_and, List.all_eq_true]
+  intro ro hro
+  rw [List.zip_map_right] at hro
+  simp only [List.mem_map] at hro
+  obtain ⟨⟨r1, r2⟩, hmem, rfl⟩ := hro
+  have h12 : r1 = r2 := by
+    have := List.of_mem_zip hmem
+    clear h
+    induction runs with
+    | nil => simp at hmem
+    | cons a as ih =>
+      simp only [List.zip_cons_cons, List.mem_cons, Prod.mk.injEq] at hmem
+      rcases hmem with ⟨rfl, rfl⟩ | hm
+      · rfl
+      · exact ih hm (List.of_mem_zip hm)
+  subst h12
+  have hr : r1 ∈ runs := (List.of_mem_zip hmem).1
+  by_cases hwf : wfRun g r1 = true
+  · simp only [Prod.map, id, hwf, Bool.not_true, Bool.false_or]
+    rw [covered_spec g r1 hwf (h r1 hr hwf)]
+    exact obs_beq_refl _
+  · simp [Prod.map, hwf]
+
 end Glom.C16
